@@ -952,6 +952,117 @@ def r6(ctx, r):
         st = fb.func(cls + "::stop", file_suffix=FILES[cls])
         _stop_behind_worker_end(r, dp, st, cls)
         _join_marker_in_cas_section(r, dp, st, cls)
+    # … and the public wrapper hands every caller to the engine's stop(), where that wait is
+    _stop_forwarded_on_every_path(r, dp, fb.func(TR + "::stop", file_suffix=TFILE))
+
+
+def _stop_forwarded_on_every_path(r, dp, f):
+    """The engines' stop() is where a stopper that did NOT win the _running CAS waits for the winner's drain and join (the two
+    clauses above).  That only helps a caller of Transport::stop() — the public entry every shared owner may call at the same
+    time — if the wrapper really hands it to the engine: on every path on which stop() RETURNS (a throw does not return) the
+    engine's stop() has been called.  The one thing that voids the obligation is that there is no engine: the null edge of an
+    existence test of a pointer the forwarding call itself dereferences (`_impl`, `_impl->engine` — taken from the call's object
+    expression, not from names), spelled as a bool conversion, a comparison with nullptr, a `!`/`&&`/`||` combination of those, or
+    a named test whose one return statement is such a combination.  No other condition may decide that the engine is not called —
+    in particular no lifecycle flag: the engines clear _running at the START of their stop(), so 'not running' is already true
+    for the whole of another caller's drain, and a wrapper that returns on it lets every stopper but the first return while
+    onClose callbacks still run.  Helpers of Transport/Impl that hold the call or the throw are entered.
+    (Impl::performTeardown — ~Transport's path — does branch on isRunning(): the destructor has no concurrent caller by the
+    shared-ownership argument listed under NOT_DECIDED, and R4 decides its order; it is not a public stop.)"""
+    is_eng = lambda e: e.kind == "stmt" and e.node.get("k") == "mcall" and last(e.node.get("callee", "")) == "stop" and "EngineBase" in e.node.get("callee", "")
+    is_throw = lambda e: e.kind == "stmt" and e.node.get("k") == "throw"
+    calls = dp.sites(f, is_eng)
+    r.instance()
+    if not calls:
+        r.fail(f, None, "stop: engine stop not called", "Transport::stop no longer calls the engine's stop()")
+        return
+    ptrs = {x["n"] for (g, e) in calls for x in walk(e.node.get("obj") or {}) if x.get("k") == "member"}
+    if not ptrs:
+        raise AnalysisBroken("Transport::stop: the engine's stop() is not called through member pointers (%s) — the existence tests cannot be identified" % show(calls[0][1].node)[:60])
+
+    def exists(g, c, depth=0):
+        """'exist': c true ⇒ every tested pointer is set, c false ⇒ one of them is null; 'null': the reverse; None: c tests something else"""
+        c = strip_casts(c) if c is not None else None
+        if c is None:
+            return None
+        k = c.get("k")
+        flip = {"exist": "null", "null": "exist", None: None}
+        if k == "un" and c.get("op") == "!" and isinstance(c.get("v"), dict):
+            return flip[exists(g, c["v"], depth)]
+        if k == "paren" and isinstance(c.get("v"), dict):
+            return exists(g, c["v"], depth)
+        if k == "bin" and c.get("op") in ("&&", "||"):
+            a, b = exists(g, c["lhs"], depth), exists(g, c["rhs"], depth)
+            want = "exist" if c["op"] == "&&" else "null"
+            return want if a == want and b == want else None
+        if k in ("mcall", "opcall") and last(c.get("callee", "")) == "operator bool":
+            o = c.get("obj") or (c.get("args") or [None])[0]
+            return "exist" if o is not None and field_of(o) in ptrs else None
+        cp = common.cmp_parts(c)
+        if cp and cp[0] in ("==", "!="):
+            for (x, y) in ((cp[1], cp[2]), (cp[2], cp[1])):
+                if strip_casts(y).get("k") == "null" and field_of(strip_casts(x)) in ptrs:
+                    return "exist" if cp[0] == "!=" else "null"
+            return None
+        if k == "member" and c.get("n") in ptrs:       # a raw pointer used as a condition
+            return "exist"
+        if k in ("call", "mcall") and depth < 2:
+            hs = dp.node_callees(g, c)
+            out = set()
+            for h in hs:
+                rets = [e.node for e in h.stmts() if e.node.get("k") == "ret"]
+                out.add(exists(h, rets[0].get("v"), depth + 1) if len(rets) == 1 and rets[0].get("v") is not None else None)
+            return out.pop() if len(out) == 1 else None
+        return None
+
+    def edge_ok(b, si):
+        c, s_true, s_false = common.branch(b)
+        if c is None or s_true == s_false:
+            return True
+        kind = exists(b.fn if hasattr(b, "fn") else f, c)
+        void = s_false if kind == "exist" else s_true if kind == "null" else None
+        return not (void is not None and b.succs[si] == void)
+    barrier = lambda e, s: is_eng(e) or is_throw(e)
+    enter = dp.relevant(f, lambda e: is_eng(e) or is_throw(e))
+    w = dp.search(f, ("entry",), "exit", stop=barrier, edge_ok=edge_ok, enter=enter)
+    if w is None:
+        r.ok("Transport::stop: with an engine, every returning path has called the engine's stop()")
+        return
+    # the deciding condition: the last branch of the witness whose other side cannot get round the call
+    steps = [p for p in w if isinstance(p, tuple) and len(p) == 3]
+    decider = None
+    for (p, q) in reversed(list(zip(steps, steps[1:]))):
+        (s1, g1, b1), (s2, g2, b2) = p, q
+        blk = g1.blocks[b1]
+        if s1 != s2 or g1 is not g2 or blk.cond is None or len(blk.succs) != 2 or b2 not in blk.succs or blk.succs[0] == blk.succs[1]:
+            continue
+        others = [(si, s) for si, s in enumerate(blk.succs) if s != b2 and s is not None and edge_ok(blk, si)]
+        if others and all(dp.search(f, ("block", s1, g1, s), "exit", stop=barrier, edge_ok=edge_ok, enter=enter) is None for (si, s) in others):
+            decider = (g1, blk, blk.edge_label(blk.succs.index(b2)))
+            break
+    if decider is None:
+        r.fail(f, None, "stop: engine stop bypassed", "Transport::stop can return without having called the engine's stop() although an engine exists, whatever its conditions say", witness=dp.witness(w))
+        return
+    g1, blk, lab = decider
+    cond = show(blk.cond)[:80]
+    reads = sorted({last(x.get("callee") or x.get("n") or "") for (h, x) in _cond_nodes(dp, g1, blk.cond) if x.get("k") in ("mcall", "call", "member")} - {"operator bool", "operator->", "operator*", "get"})
+    r.fail(g1, blk.elems[-1] if blk.elems else None, "stop: engine stop bypassed",
+           "Transport::stop returns without calling the engine's stop() when `%s` is %s (%s, line %s; it reads %s): that is not a test for the engine's existence — a condition on the lifecycle state is already "
+           "satisfied while ANOTHER caller's stop() is still draining and joining (the engines clear _running first), so this caller returns while onClose callbacks still run; only the engine's own stop() "
+           "waits that out" % (cond, {True: "true", False: "false"}.get(lab, "taken"), short(g1.name), (blk.term or {}).get("l") or (blk.elems[-1].line if blk.elems else "?"), ", ".join(reads) or "nothing the rule knows"),
+           witness=dp.witness(w))
+
+
+def _cond_nodes(dp, g, c, depth=0):
+    """the expression nodes a branch condition reads, through the one-return named tests it calls (for the message only)"""
+    for x in walk(c or {}):
+        yield g, x
+        if x.get("k") in ("call", "mcall") and depth < 2:
+            for h in dp.node_callees(g, x):
+                for e in h.stmts():
+                    if e.node.get("k") == "ret" and e.node.get("v") is not None:
+                        for y in _cond_nodes(dp, h, e.node["v"], depth + 1):
+                            yield y
 
 
 def _is_cv_wait(e):
